@@ -20,6 +20,7 @@ import SarpyModel.Drivers.Supported
 import SarpyModel.Drivers.Segment
 import SarpyModel.Drivers.FieldFmt2
 import SarpyModel.Drivers.XsdFmt
+import SarpyModel.Drivers.Tre
 namespace Sarpy.Drivers
 
 def step (line : String) : String :=
@@ -47,6 +48,7 @@ def step (line : String) : String :=
   | "seg" :: rest => (segStep rest).getD "bad-op"
   | "fmt2" :: rest => (fmt2Step rest).getD "bad-op"
   | "xsd" :: rest => (xsdStep rest).getD "bad-op"
+  | "tre" :: rest => (treStep rest).getD "bad-op"
   | _ => "bad-op"
 
 partial def loop (h : IO.FS.Stream) : IO Unit := do
